@@ -781,7 +781,9 @@ fn enum_c06(ctx: &mut Ctx, seed: u64) -> Result<(), String> {
     let (points, ex) = cut_points(&env, &mut rng, if ctx.tier_thorough { 4096 } else { 1000 }, 256);
     ctx.count(if ex { "enum.files_exhaustive" } else { "enum.files_sampled" }, 1);
     for &p in &points {
-        for m in [MediaOp::Xor(p, 0x01), MediaOp::Xor(p, 0x80), MediaOp::Set(p, 0xff), MediaOp::Set(p, 0x00), MediaOp::Xor(p, 0x20), MediaOp::Cut(p)] {
+        // single-bit flips, extreme values, and bytes that turn valid scalars into invalid ones (0xD8/0xDF: UTF-16
+        // surrogates inside a char, 0x11: just above the last Unicode plane, 0x02: neither false nor true)
+        for m in [MediaOp::Xor(p, 0x01), MediaOp::Xor(p, 0x80), MediaOp::Set(p, 0xff), MediaOp::Set(p, 0x00), MediaOp::Xor(p, 0x20), MediaOp::Set(p, 0xd8), MediaOp::Set(p, 0xdf), MediaOp::Set(p, 0x11), MediaOp::Set(p, 0x02), MediaOp::Cut(p)] {
             let mut c = base.clone();
             c.config = "media".into();
             c.media = vec![m];
